@@ -65,7 +65,7 @@ fn clone_tick() {
 }
 
 pub trait Leaf: Sized {
-    /// `z` zero-sized, `b` one byte, `s` 2..=1024 bytes, `l` > 1024 bytes, `h` heap-owning
+    /// `z` zero-sized, `b` one byte, `s` 2..=1024 bytes, `l` > 1024 bytes, `h` heap-owning, `p` plain data without destructor
     const KIND: char;
     fn make(id: u32) -> Self;
     fn ident(&self) -> u32;
@@ -129,6 +129,15 @@ impl Leaf for Hp {
     const KIND: char = 'h';
     fn make(id: u32) -> Self { Hp::new(id) }
     fn ident(&self) -> u32 { **self.0 }
+}
+
+/// plain data: no destructor, not tracked by the ledger (`needs_drop::<Pl>() == false`)
+#[derive(Debug, Clone, Copy, PartialEq, Eq, PartialOrd, Ord, Hash)]
+pub struct Pl(pub u32);
+impl Leaf for Pl {
+    const KIND: char = 'p';
+    fn make(id: u32) -> Self { Pl(id) }
+    fn ident(&self) -> u32 { self.0 }
 }
 
 /// struct-level destructor event (logged by the `Drop` impl of a shape struct)
